@@ -703,16 +703,20 @@ class FATLongDirectoryEntry(object):
                                  "cluster ID, don't know what to do.",
                                  errno=errno.EFAULT)
 
-        # Check if item with same index has already been added
-        if LDIR_Ord in self.lfn_entries.keys():
-            raise PyFATException("Given LFN entry part with index \'{}\'"
-                                 "has already been added to LFN "
-                                 "entry list.".format(LDIR_Ord))
-
         mapped_entries = dict(zip(self.FAT_LONG_DIRECTORY_VARS,
                                   (LDIR_Ord, LDIR_Name1, LDIR_Attr, LDIR_Type,
                                    LDIR_Chksum, LDIR_Name2, LDIR_FstClusLO,
                                    LDIR_Name3)))
+
+        # Check if item with same index has already been added
+        if LDIR_Ord in self.lfn_entries.keys():
+            if self.lfn_entries[LDIR_Ord] == mapped_entries:
+                # The same slot once more: a directory rewrite that was
+                # interrupted half-way leaves such copies behind
+                return
+            raise PyFATException("Given LFN entry part with index \'{}\'"
+                                 "has already been added to LFN "
+                                 "entry list.".format(LDIR_Ord))
 
         self.lfn_entries[LDIR_Ord] = mapped_entries
 
